@@ -423,8 +423,13 @@ def const(ctx: Any) -> List[Ob]:
         if t.kind == 'test':
             try:
                 p, op = lf.comparison(prog, rq.module, t.ast, sym, env)
-                if lf.same_cmp((p, op), lf.parse_cmp('EXP - NOW - 1000*TTL*PCT <= 0')):
-                    ok_g = all(s.kind == 'return' for s, lab in t.succ if lab is True)
+                # the edge taken when the query would be due at or after the expiry: the true edge of `next >= expire`,
+                # the false edge of its negation (`if next < expire: <schedule>`)
+                bad = True if lf.same_cmp((p, op), lf.parse_cmp('EXP - NOW - 1000*TTL*PCT <= 0')) else \
+                    False if lf.same_cmp((p, op), lf.parse_cmp('NOW + 1000*TTL*PCT - EXP < 0')) else None
+                if bad is not None:
+                    sched = [n for n in rcfg.nodes if any(call_name(c) in ('_ScheduledPTRQuery', 'heappush') for c in n.calls())]
+                    ok_g = bool(sched) and all(not rcfg.can_reach(s, n) and s not in sched for s, lab in t.succ if lab is bad for n in sched)
             except lf.NotLinear:
                 pass
     obs.append(ob(R, rq, 'if next_query_time >= query.expire_time_millis: return', 'no rescue query at or after the record\'s expiry', ok_g))
